@@ -133,6 +133,11 @@ repaired), `skip` starts at 1 and doubles, the bisection continues while `lo < h
 `mid = lo + (hi-lo)/2`. -/
 theorem gen_search_guard : Gsu.Gen.Repair.emptyGuard = true := rfl
 
+/-- (G) the scanner only lists candidates whose whole record lies inside the file (the crash
+model's "a state not completely below the cut is not a state"; without the length test the
+read-only mapping is read past the end of the file — findings/C05.md, SIGBUS) -/
+theorem gen_scanner_bounds : Gsu.Gen.Repair.scannerBoundsCheck = true := rfl
+
 theorem gen_constants :
     Gsu.Gen.Repair.magic1 = magic1 ∧ Gsu.Gen.Repair.magic2 = magic2 ∧
     Gsu.Gen.Repair.shutdown = shutdown ∧ Gsu.Gen.Repair.corrupt = corrupt ∧
